@@ -50,6 +50,55 @@ impl Verdict {
     }
 }
 
+/// Watchdog: the case being executed (serialised lazily) and a progress counter. A helper thread
+/// reports the case and ends the process when no progress is made for `case_timeout_s`.
+pub struct Watch {
+    pub progress: std::sync::atomic::AtomicU64,
+    pub current: std::sync::Mutex<Option<Box<dyn Fn() -> String + Send>>>,
+}
+
+pub static WATCH: Watch = Watch {
+    progress: std::sync::atomic::AtomicU64::new(0),
+    current: std::sync::Mutex::new(None),
+};
+
+/// Note the case that is about to run (cheap: serialisation happens only if the watchdog fires).
+pub fn watch_case<C: Serialize + Clone + Send + 'static>(case: &C) {
+    let c = case.clone();
+    if let Ok(mut g) = WATCH.current.lock() {
+        *g = Some(Box::new(move || serde_json::to_string(&c).unwrap_or_default()));
+    }
+    WATCH.progress.fetch_add(1, std::sync::atomic::Ordering::Relaxed);
+}
+
+/// Tell the watchdog that the process is alive (long enumerations call this between cases).
+pub fn tick() {
+    WATCH.progress.fetch_add(1, std::sync::atomic::Ordering::Relaxed);
+}
+
+/// Start the watchdog thread: if the progress counter stands still for `timeout_s`, write the
+/// current case to `hang_file` and exit the process with status 3.
+pub fn start_watchdog(timeout_s: u64, hang_file: PathBuf) {
+    std::thread::spawn(move || {
+        let mut last = WATCH.progress.load(std::sync::atomic::Ordering::Relaxed);
+        let mut since = crate::clock::real_mono_s();
+        loop {
+            std::thread::sleep(std::time::Duration::from_millis(500));
+            let now = WATCH.progress.load(std::sync::atomic::Ordering::Relaxed);
+            if now != last {
+                last = now;
+                since = crate::clock::real_mono_s();
+                continue;
+            }
+            if crate::clock::real_mono_s() - since > timeout_s as f64 {
+                let text = WATCH.current.lock().ok().and_then(|g| g.as_ref().map(|f| f())).unwrap_or_default();
+                let _ = std::fs::write(&hang_file, text);
+                std::process::exit(3);
+            }
+        }
+    });
+}
+
 /// Scratch environment of one worker process.
 pub struct Env {
     pub dir: PathBuf,
@@ -80,7 +129,7 @@ impl Env {
 }
 
 /// Property-specific additional work (enumerations, sweeps) run once by the parent.
-#[derive(Default)]
+#[derive(Default, Serialize, serde::Deserialize)]
 pub struct Extra {
     pub evaluations: u64,
     pub nontrivial_hashes: Vec<u64>,
@@ -99,7 +148,7 @@ impl Extra {
 }
 
 pub trait Property {
-    type Case: std::fmt::Debug + Clone + Serialize + DeserializeOwned + 'static;
+    type Case: std::fmt::Debug + Clone + Serialize + DeserializeOwned + Send + 'static;
     const ID: &'static str;
     const LEVEL: &'static str = "exploration";
     fn rule() -> String;
@@ -122,6 +171,15 @@ pub trait Property {
     }
     fn max_shrink_iters(_tier: Tier) -> u32 {
         4000
+    }
+    /// A single case that runs longer than this is reported (with the case) and the process ended.
+    fn case_timeout_s() -> u64 {
+        180
+    }
+    /// Whether "a case never returns" violates the property itself (boundedness is what is claimed);
+    /// otherwise a hang is reported as inconclusive (exit 2).
+    fn hang_is_violation() -> bool {
+        false
     }
     /// Wall-clock cap on shrinking (ms); the best case found so far is reported when it is hit.
     fn max_shrink_time_ms(_tier: Tier) -> u32 {
@@ -199,7 +257,9 @@ pub fn run_worker<P: Property>(tier: Tier, seed: u64, worker: usize, n: u64, dir
     let env = RefCell::new(Env::new(&dir.join(format!("scratch{}", worker)), tier, worker));
     let ctr = RefCell::new(Counters::default());
     let trace = std::env::var("VERIF_TRACE").is_ok();
+    start_watchdog(P::case_timeout_s(), dir.join(format!("w{}.hang.json", worker)));
     let result = runner.run(&strategy, |case| {
+        watch_case(&case);
         if trace {
             eprintln!("CASE {}", serde_json::to_string(&case).unwrap_or_default());
         }
@@ -354,6 +414,7 @@ pub fn main_for<P: Property>(args: &[String]) -> i32 {
     let mut replay: Option<String> = None;
     let mut worker: Option<(usize, u64, String)> = None;
     let mut cases_override: Option<u64> = None;
+    let mut extra_dir: Option<String> = None;
     let mut i = 0;
     while i < args.len() {
         match args[i].as_str() {
@@ -369,6 +430,10 @@ pub fn main_for<P: Property>(args: &[String]) -> i32 {
                 worker = Some((args[i + 1].parse().unwrap(), args[i + 2].parse().unwrap(), args[i + 3].clone()));
                 i += 3;
             }
+            "--extra" => {
+                extra_dir = Some(args[i + 1].clone());
+                i += 1;
+            }
             "--cases" => {
                 cases_override = Some(args[i + 1].parse().unwrap());
                 i += 1;
@@ -380,6 +445,17 @@ pub fn main_for<P: Property>(args: &[String]) -> i32 {
     let seed = verif_seed();
     if let Some((w, n, dir)) = worker {
         return run_worker::<P>(tier, seed, w, n, Path::new(&dir));
+    }
+    if let Some(dir) = extra_dir {
+        // child process: run the property-specific enumerations and write the result as JSON
+        P::init();
+        quiet_panics();
+        let root = PathBuf::from(&dir);
+        start_watchdog(if tier == Tier::Thorough { 14_400 } else { P::case_timeout_s().max(600) }, root.join("extra.hang.json"));
+        let mut env = Env::new(&root.join("extra-scratch"), tier, 98);
+        let extra = P::extra(tier, &mut env, seed);
+        let _ = std::fs::write(root.join("extra.json"), serde_json::to_vec(&extra).unwrap_or_default());
+        return 0;
     }
     P::init();
     let t0 = crate::clock::real_mono_s();
@@ -394,7 +470,36 @@ pub fn main_for<P: Property>(args: &[String]) -> i32 {
 fn parent<P: Property>(tier: Tier, seed: u64, replay: Option<String>, cases_override: Option<u64>, root: &Path, t0: f64) -> i32 {
     quiet_panics();
     let mut env = Env::new(&root.join("parent"), tier, 99);
-    // --replay FILE: strict re-execution of one saved case.
+    // --replay FILE: strict re-execution of one saved case, in a child process under a deadline
+    if let (Some(f), false) = (&replay, std::env::var("VERIF_REPLAY_INNER").is_ok()) {
+        let exe = std::env::current_exe().expect("current_exe");
+        let mut ch = match std::process::Command::new(&exe).arg(P::ID.to_lowercase()).arg("--replay").arg(f).env("VERIF_REPLAY_INNER", "1").spawn() {
+            Ok(c) => c,
+            Err(e) => {
+                eprintln!("cannot start the replay process: {}", e);
+                return 2;
+            }
+        };
+        let t_start = crate::clock::real_mono_s();
+        loop {
+            match ch.try_wait() {
+                Ok(Some(st)) => return st.code().unwrap_or(2),
+                Ok(None) => {}
+                Err(_) => return 2,
+            }
+            if crate::clock::real_mono_s() - t_start > P::case_timeout_s() as f64 {
+                let _ = ch.kill();
+                let _ = ch.wait();
+                println!("replay did not return within {} s", P::case_timeout_s());
+                if P::hang_is_violation() {
+                    println!("VIOLATION property={} replay={}", P::ID, f);
+                    return 1;
+                }
+                return 2;
+            }
+            std::thread::sleep(std::time::Duration::from_millis(50));
+        }
+    }
     if let Some(f) = replay {
         let text = match std::fs::read(&f) {
             Ok(t) => String::from_utf8_lossy(&t).to_string(),
@@ -479,7 +584,41 @@ fn parent<P: Property>(tier: Tier, seed: u64, replay: Option<String>, cases_over
         children.push((w, child));
     }
     // 3. property-specific extras in the parent meanwhile.
-    let extra = P::extra(tier, &mut env, seed);
+    // (in a child process with its own watchdog: a hang inside an enumerated case must not hang the check)
+    let extra_out = root.join("extra.json");
+    let extra_child = std::process::Command::new(&exe)
+        .arg(P::ID.to_lowercase())
+        .arg("--tier")
+        .arg(tier.name())
+        .arg("--extra")
+        .arg(root.to_string_lossy().to_string())
+        .env("VERIF_SEED", (seed as i64).to_string())
+        .spawn();
+    let mut hang_reports: Vec<(String, PathBuf)> = vec![];
+    let extra: Extra = match extra_child {
+        Ok(mut ch) => {
+            let st = ch.wait();
+            match std::fs::read(&extra_out).ok().and_then(|b| serde_json::from_slice::<Extra>(&b).ok()) {
+                Some(e) => e,
+                None => {
+                    let hf = root.join("extra.hang.json");
+                    if hf.exists() {
+                        let dst = verif_root().join("replays").join(format!("{}-hang-extra.json", P::ID));
+                        let _ = std::fs::create_dir_all(verif_root().join("replays"));
+                        let _ = std::fs::copy(&hf, &dst);
+                        hang_reports.push(("an enumerated case did not return".to_string(), dst));
+                    } else {
+                        hang_reports.push((format!("the process running the enumerated cases died without a result ({:?})", st), PathBuf::new()));
+                    }
+                    Extra::default()
+                }
+            }
+        }
+        Err(e) => {
+            hang_reports.push((format!("cannot start the process for the enumerated cases: {}", e), PathBuf::new()));
+            Extra::default()
+        }
+    };
 
     let mut evaluations = extra.evaluations + replayed;
     let mut cases = 0u64;
@@ -520,7 +659,9 @@ fn parent<P: Property>(tier: Tier, seed: u64, replay: Option<String>, cases_over
                     // confirm deterministically outside proptest
                     let confirmed = matches!(replay_value::<P>(&case, &mut env), Ok(Verdict { fail: Some(_), .. }));
                     let p = write_replay(P::ID, &reason, &case, seed);
-                    if confirmed {
+                    if reason.contains("HARNESS") {
+                        inconclusive.push(format!("worker {}: {}", w, reason));
+                    } else if confirmed {
                         println!("worker {}: {}", w, reason);
                         violations.push((reason, p));
                     } else {
@@ -532,7 +673,15 @@ fn parent<P: Property>(tier: Tier, seed: u64, replay: Option<String>, cases_over
                 }
             }
             None => {
-                inconclusive.push(format!("worker {} died without a result ({:?})", w, status));
+                let hf = root.join(format!("w{}.hang.json", w));
+                if hf.exists() {
+                    let dst = verif_root().join("replays").join(format!("{}-hang-w{}.json", P::ID, w));
+                    let _ = std::fs::create_dir_all(verif_root().join("replays"));
+                    let _ = std::fs::copy(&hf, &dst);
+                    hang_reports.push((format!("worker {}: a generated case did not return within {} s", w, P::case_timeout_s()), dst));
+                } else {
+                    inconclusive.push(format!("worker {} died without a result ({:?})", w, status));
+                }
             }
         }
     }
@@ -540,11 +689,32 @@ fn parent<P: Property>(tier: Tier, seed: u64, replay: Option<String>, cases_over
         samples.push(s.clone());
     }
     if let Some((reason, case)) = &extra.failure {
+        // failures of the enumerated extras are confirmed by a second execution, like generated ones
+        // (a failure whose payload is not a replayable case - e.g. an ABI report - is taken as is)
+        let confirmed = match replay_value::<P>(case, &mut env) {
+            Ok(Verdict { fail: Some(_), .. }) => true,
+            Ok(_) => false,
+            Err(_) => true,
+        };
         let p = write_replay(P::ID, reason, case, seed);
-        println!("extra: {}", reason);
-        violations.push((reason.clone(), p));
+        if reason.contains("HARNESS") || reason.starts_with("harness") {
+            inconclusive.push(format!("extra: {}", reason));
+        } else if confirmed {
+            println!("extra: {}", reason);
+            violations.push((reason.clone(), p));
+        } else {
+            inconclusive.push(format!("extra: a failure did not reproduce on replay ({}): {}", p.display(), reason));
+        }
     }
 
+    for (m, p) in hang_reports {
+        if P::hang_is_violation() && p.as_os_str().len() > 0 {
+            println!("{} (case saved in {})", m, p.display());
+            violations.push((m, p));
+        } else {
+            inconclusive.push(format!("{} {}", m, p.display()));
+        }
+    }
     // generator health floors
     for (l, frac) in P::floors() {
         let have = labels.get(l).copied().unwrap_or(0) as f64;
